@@ -116,7 +116,8 @@ class Result:
             "wall_s": round(time.time() - self.t0, 2),
             "violations": len(self.violations),
         }
-        d = os.path.join(VERIF, "evidence")
+        # runs against a scratch tree (seeded changes) set VERIF_EVIDENCE_DIR so that evidence/ only ever holds runs on /repo
+        d = os.environ.get("VERIF_EVIDENCE_DIR") or os.path.join(VERIF, "evidence")
         os.makedirs(d, exist_ok=True)
         tmp = os.path.join(d, self.pid + ".json.tmp")
         with open(tmp, "w") as f:
